@@ -93,7 +93,7 @@ func check(c Case) (o ev.Outcome) {
 		}
 		before := len(o.Violations)
 		ev.Guard(&o, "compare", func() {
-			schema.CompareModules(&o, c.Set, obs, trees, canon.DiffOpts{NS: true, SkipImplicitCaseNS: true}, "C07", "augmented-tree")
+			schema.CompareModules(&o, c.Set, obs, trees, canon.DiffOpts{NS: true, SkipImplicitCaseNS: true, Stmts: true}, "C07", "augmented-tree")
 		})
 		if len(o.Violations) > before {
 			o.Violations[len(o.Violations)-1].Detail = fmt.Sprintf("load order #%d %v: %s", oi, ord, o.Violations[len(o.Violations)-1].Detail)
@@ -255,6 +255,8 @@ func gen(t *rapid.T) Case {
 	o := ymodel.DefaultOpts()
 	o.Typedefs = rapid.IntRange(0, 3).Draw(t, "typedefs") == 0
 	o.Budget = 24
+	o.Extras = true // must, when, status, reference, presence and extension statements on nodes, uses and augments
+	schema.AugmentExtras = true
 	set, _ := schema.Generate(t, o)
 	schema.AddAugments(t, set, 1, 6)
 	c := Case{Set: set}
